@@ -51,8 +51,9 @@ def run(tier, seed):
             # several observation dates / schedule records / CO2 years: any ordering that depended on hashing would show across hash seeds
             2: S("Wheat", seed=seed + 1, soil_spec=loamy, gw={"water_table": "Y", "method": "Constant", "dates": ["2001/04/20", "2001/06/01", "2001/07/15", "2001/08/20"], "values": [2.0, 1.2, 0.9, 1.6]},
                  crop_kw={"Zmax": 1.0}, co2={"co2_data": [[1990, 355.0], [2000, 369.5], [2001, 371.0], [2010, 390.0]]}),
-            3: S("Tomato", "Default", seed=seed + 3, irr={"method": 3, "schedule": [["2001/05/05", 30], ["2001/06/01", 20], ["2001/06/20", 25], ["2001/07/04", 15], ["2001/07/30", 28]]}, crop_kw={"Zmax": 1.6},
-                 gw={"water_table": "Y", "method": "Variable", "dates": ["2001/04/20", "2001/06/10", "2001/08/01", "2001/09/15"], "values": [2.2, 1.4, 1.0, 1.9]})}
+            # another period (other CO2 concentrations, other weather rows), two seasons, default CO2 object like configuration 1
+            3: S("Tomato", "Default", seed=seed + 3, year=2004, seasons=2, irr={"method": 3, "schedule": [["2004/05/05", 30], ["2004/06/01", 20], ["2004/06/20", 25], ["2005/07/04", 15], ["2005/07/30", 28]]}, crop_kw={"Zmax": 1.6},
+                 gw={"water_table": "Y", "method": "Variable", "dates": ["2004/04/20", "2004/06/10", "2004/08/01", "2005/09/15"], "values": [2.2, 1.4, 1.0, 1.9]})}
     hs, st = tlc_histories(6 if tier == "thorough" else 5)
     rnd.shuffle(hs)
     # only histories in which at least one instance has been stepped
